@@ -19,6 +19,7 @@ enum Op {
     RemoveAll,
     Get(Vec<u8>),
     GetRange(Vec<u8>, u64, u64),
+    Reader(Vec<u8>),
     Ckpt,
     Cleanup(Vec<String>),
 }
@@ -30,6 +31,7 @@ fn text(op: &Op) -> String {
         Op::Remove(k) => format!("remove:{}", hx(k)),
         Op::RemoveAll => "rrange:*:*".to_string(),
         Op::Get(k) => format!("get:{}", hx(k)),
+        Op::Reader(k) => format!("reader:{}", hx(k)),
         Op::GetRange(k, s, e) => format!("grange:{}:{}:{}", hx(k), s, e),
         Op::Ckpt => "ckpt".to_string(),
         Op::Cleanup(hs) => format!("cleanup:{}", hs.join(",")),
@@ -80,7 +82,7 @@ fn linearizable(initial: &BTreeMap<Vec<u8>, Vec<u8>>, evs: &[Event], final_diges
                     e.result == format!("count_{}", scanned[i].len())
                 }
                 (Op::Remove(_), _) | (Op::RemoveAll, _) => { for k in &scanned[i] { m.remove(k); } phase[i] = 2; true }
-                (Op::Get(k), _) => { phase[i] = 2; match m.get(k) {
+                (Op::Get(k), _) | (Op::Reader(k), _) => { phase[i] = 2; match m.get(k) {
                     None => e.result == "absent",
                     Some(c) => e.result == format!("found_{}", hx(c)),
                 } }
@@ -150,7 +152,7 @@ pub fn conc_cases(s: &mut Sess, rng: &mut Rng, n: u64, prop: &'static str) {
                 for _ in 0..(if t == 0 { 2 } else { rng.range(1, 2) }) {
                     let c = rcontents[rng.below(3) as usize].to_vec();
                     let op = if t == 0 {
-                        if rng.chance(2, 3) { let st = rng.below(7); Op::GetRange(k.clone(), st, *rng.pick(&[st, st + 1, st + 2, 6, 100, u64::MAX / 2, u64::MAX])) } else { Op::Get(k.clone()) }
+                        if rng.chance(2, 3) { let st = rng.below(7); Op::GetRange(k.clone(), st, *rng.pick(&[st, st + 1, st + 2, 6, 100, u64::MAX / 2, u64::MAX])) } else if rng.chance(1, 2) { Op::Get(k.clone()) } else { Op::Reader(k.clone()) }
                     } else {
                         match rng.below(8) { 0..=4 => Op::Put(k.clone(), c), 5 => Op::Remove(k.clone()), 6 => Op::RemoveAll, _ => Op::Get(k.clone()) }
                     };
@@ -171,7 +173,8 @@ pub fn conc_cases(s: &mut Sess, rng: &mut Rng, n: u64, prop: &'static str) {
                     0..=4 => Op::Put(k, c),
                     5 | 6 => Op::Remove(k),
                     7 => Op::RemoveAll,
-                    8 | 9 => Op::Get(k),
+                    8 => Op::Get(k),
+                    9 => Op::Reader(k),
                     10 => { let s = rng.below(3); Op::GetRange(k, s, s + *rng.pick(&[0u64, 1, 2, 100, u64::MAX / 2])) }
                     11 => Op::Ckpt,
                     12 => Op::Abort(k, c),
@@ -186,7 +189,7 @@ pub fn conc_cases(s: &mut Sess, rng: &mut Rng, n: u64, prop: &'static str) {
             programs[0].insert(0, Op::Cleanup(orphans.clone()));
         }
         for p in programs.iter().flatten() {
-            s.out.count(match p { Op::Put(..) => "cop.put", Op::Abort(..) => "cop.abort", Op::Remove(_) => "cop.remove", Op::RemoveAll => "cop.rrange", Op::Get(_) => "cop.get", Op::GetRange(..) => "cop.getrange", Op::Ckpt => "cop.ckpt", Op::Cleanup(_) => "cop.cleanup" });
+            s.out.count(match p { Op::Put(..) => "cop.put", Op::Abort(..) => "cop.abort", Op::Remove(_) => "cop.remove", Op::RemoveAll => "cop.rrange", Op::Get(_) => "cop.get", Op::Reader(_) => "cop.reader", Op::GetRange(..) => "cop.getrange", Op::Ckpt => "cop.ckpt", Op::Cleanup(_) => "cop.cleanup" });
         }
         // same-key / same-content concurrency statistics
         let puts: Vec<(usize, &Vec<u8>, &Vec<u8>)> = programs.iter().enumerate().flat_map(|(t, p)| p.iter().filter_map(move |o| if let Op::Put(k, c) = o { Some((t, k, c)) } else { None })).collect();
@@ -194,7 +197,7 @@ pub fn conc_cases(s: &mut Sess, rng: &mut Rng, n: u64, prop: &'static str) {
         if puts.iter().any(|a| puts.iter().any(|b| a.0 != b.0 && a.2 == b.2)) { s.out.count("conc.same-content-puts"); }
         let progs_text: Vec<String> = programs.iter().map(|p| p.iter().map(text).collect::<Vec<_>>().join(";")).collect();
         let policy = if rng.chance(1, 2) { if rw_race && rng.chance(2, 3) { "stall0" } else { "stall" } } else { "rand" };
-        s.out.count(if policy == "stall" { "conc.policy-stall" } else { "conc.policy-rand" });
+        s.out.count(match policy { "stall" => "conc.policy-stall", "stall0" => "conc.policy-stall0", _ => "conc.policy-rand" });
         let obs = s.op(&format!("conc {policy}={} {}", rng.next() % 1_000_000, progs_text.join(" ")));
         // ---- oracles
         let steps: Vec<&str> = obs.split(" | ").collect();
